@@ -463,8 +463,27 @@ fn gen() -> GenFn {
             ("query", parts.join("&").into_bytes(), None)
         } else {
             let ty = target_ty(t);
-            let class = g.below(10);
+            let class = g.below(11);
             let doc = match class {
+                10 => {
+                    // documents whose rejection message is long (above 1 KiB / 4 KiB): a long string or array where
+                    // something else is expected, a very long unknown key next to a valid document
+                    let n = [600usize, 1100, 1500, 4200][g.below(4)];
+                    match g.below(3) {
+                        0 => PV::Str("a".repeat(n)),
+                        1 => PV::Seq((0..n / 3).map(|i| PV::Int(i as u64 % 10)).collect()),
+                        _ => {
+                            g.cfg.fault = 0.0;
+                            match g.typed(&ty, 0) {
+                                PV::Map(mut m) => {
+                                    m.push(("k".repeat(n), PV::Null));
+                                    PV::Map(m)
+                                }
+                                _ => PV::Map(vec![("k".repeat(n), PV::Null)]),
+                            }
+                        }
+                    }
+                }
                 0..=3 => {
                     g.cfg.fault = 0.0;
                     g.typed(&ty, 0)
@@ -480,7 +499,7 @@ fn gen() -> GenFn {
                 }
             };
             let mut text = doc.to_json().map(|j| j.to_string()).unwrap_or_else(|| "null".into()).into_bytes();
-            if class >= 8 {
+            if class == 8 || class == 9 {
                 // malformed: truncate or flip a byte
                 if !text.is_empty() {
                     if g.chance(0.5) {
